@@ -1293,17 +1293,23 @@ class ValueObject(Value):
         del self.value[key]
         return self.value
 
-    def resolveItem(self, key):
-        if self.hasItem(key):
-            return self.getItem(key)
+    def findOwner(self, key):
+        # the first object on the _proto_ chain that has the member;
+        # stops at a non-object and when the chain loops back
         current = self
-        while current.hasItem("_proto_"):
-            current = current.getItem("_proto_")
-            if not current:
-                break
+        seen = set()
+        while isinstance(current, ValueObject) and id(current) not in seen:
             if current.hasItem(key):
-                return current.getItem(key)
+                return current
+            seen.add(id(current))
+            current = current.getItem("_proto_")
         return None
+
+    def resolveItem(self, key):
+        owner = self.findOwner(key)
+        if owner is None:
+            return None
+        return owner.getItem(key)
 
     def type(self):
         return "object"
